@@ -24,7 +24,8 @@ text = ["## 11. Seeded changes and which checks catch them", "",
         "Changes produced by independent sub-agents. Round 1: each agent got only the text of one property and a scratch worktree of",
         "/repo. From round 2 on the prompt also listed one-line summaries of the earlier changes for that property (so that they are not",
         "repeated) and, from round 3 on, a prose description of what kind of workloads the harness drives (so that the new changes aim",
-        "at its blind spots); no file of /verif was ever shown (`origin` in each meta.json says what the author knew). Every change kept",
+        "at its blind spots); round 10 (a later session) went back to the round-1 protocol: only the property text and a worktree, one",
+        "change per agent; no file of /verif was ever shown (`origin` in each meta.json says what the author knew). Every change kept",
         "here was confirmed by me with `tools/seedtest.py <dir> --verify` in a scratch worktree outside /repo and /verif: the repository's",
         "tests pass with it, its demo fails with it and passes without it. `first version` says whether the owning check caught it when",
         "it was first evaluated (else: what was widened); `owning check now` is the verdict of the owning check at its last evaluation",
